@@ -31,7 +31,8 @@ def run(ctx):
     # family 1: per-element alternatives (MCOSMMap); family 2: sequences of multipolygon relations of different
     # shapes in one file (MCOSMMap2): what a relation becomes must not depend on the relations read before it
     for module, cap_basic, cap_compact in (("MCOSMMap", ctx.pick(300, 576), ctx.pick(40, 576)),
-                                           ("MCOSMMap2", ctx.pick(280, 512), ctx.pick(10, 512))):
+                                           ("MCOSMMap2", ctx.pick(280, 512), ctx.pick(10, 512)),
+                                           ("MCOSMMap3", 23, ctx.pick(6, 23))):     # the key mapping table, key by key
         run = ctx.tlc(module, module + ".cfg", timeout=1500, workers=4)
         exported = run.lines.get("CASE", [])
         qs = run.lines.get("QUERIES", [None])[0]
